@@ -50,7 +50,8 @@ META = {
             "(preprocessor model) and coq/C17/Expand.v (two soundness lemmas).",
 }
 
-SAN_ENV = {"ASAN_OPTIONS": "exitcode=97:detect_leaks=0:allocator_may_return_null=1",
+MEM_LIMIT_MB = 6144        # per run: plain build RLIMIT_AS, sanitised build hard_rss_limit_mb (ASan needs a huge address space)
+SAN_ENV = {"ASAN_OPTIONS": "exitcode=97:detect_leaks=0:allocator_may_return_null=1:hard_rss_limit_mb=%d" % MEM_LIMIT_MB,
            "UBSAN_OPTIONS": "exitcode=96:print_stacktrace=0"}
 MAX_BYTES = 8192
 SAFE_DEPTH = 300          # nesting that must work on the default 8 MiB stack (ASan frames are ~3x larger)
@@ -77,6 +78,8 @@ def run_case(impl_dir, data, mode="parse", args=(), big_stack=False, cpu=10, wal
         cmd = ["prlimit", "--cpu=%d" % cpu, "--fsize=%d" % (32 << 20)]
         if big_stack:
             cmd.append("--stack=%d" % BIG_STACK)
+        if not impl_dir.rstrip("/").endswith("asan"):
+            cmd.append("--as=%d" % (MEM_LIMIT_MB << 20))
         cmd += [os.path.join(impl_dir, "main"), p] + list(args)
         fo = open(os.path.join(d, "out"), "wb")
         fe = open(os.path.join(d, "err"), "wb")
